@@ -20,13 +20,17 @@ PROPS["C02"] = dict(
         "the chunk cache returns for a key only bytes committed under that key (C11) and the remote blob returns the registry bytes (C06): "
         "in the theorems this is the hypothesis Honest; any cache contents satisfying it are covered (all histories, all interference)",
         "digest verification of chunks is transparent on honest data (C01 owns it); the harness runs the reader with SkipVerify",
-        "concurrent readers are covered as interference steps (Env) between the atomic cache operations; Go-level data races are outside the model",
+        "concurrent readers are covered as interference (Env ops between reads; the env parameter between the cache operations of one read), assuming each "
+        "cache Get/Add is atomic (cache mutexes); Go-level data races are outside the model; the harness runs 2..8 concurrent readers against the oracle only",
+        "the model follows the working tree incl. the pending repairs: fs/reader ReadAt chunk-containment guard (C04), root NumLink repair in initFields, "
+        "patches/C02-fix-1.diff (empty file in the first compression stream)",
     ],
     level_text="Coq theorems for ALL inputs: the writer's chunk table tiles every file size for every chunk size (C02_chunks_tile); ChunkEntryForOffset "
                "(sort.Search transcribed) finds the unique containing chunk / nothing past EOF (C02_chunk_lookup_correct, _unique); file.ReadAt returns exactly "
                "data[off : off+min(len, n-off)] for every honest cache state, every offset and length, never panics, errors or loops, and keeps the cache honest "
                "(C02_read_exact, generic form C02_read_exact_generic), lifted by induction to every history of reads, prefetches, evictions and honest interference "
-               "(C02_read_exact_any_history, C02_read_after_any_history); short at EOF never wrong (C02_short_at_eof); clean-name laws; st_mode conversion for every "
+               "(C02_read_exact_any_history, C02_read_after_any_history) and to arbitrary honest interference between the cache operations of one read "
+               "(C02_read_exact_under_interference: concurrent readers, prefetch, eviction); short at EOF never wrong (C02_short_at_eof); clean-name laws; st_mode conversion for every "
                "tar mode and entry type; last duplicate wins, implicit parents, hardlink = target. The models are run against estargz.Build + metadata/memory + "
                "fs/reader + cache on random tars and histories every run; an independent Go oracle compares the served tree and bytes with the input tar.",
     level_note="Models (coq/Model/ChunkRead.v, TarView.v, Serve.v) are hand-written. The tree model view_of_tar is a specification checked against the "
@@ -36,5 +40,8 @@ PROPS["C02"] = dict(
               "writer loop, finite sweep (4096 modes x 7 kinds) lifted to all integers; correspondence by vm_compute on observed cases incl. per-read cache/underlying-read traces",
     trusted=["estargz.Build/appendTar, initFields, ChunkEntryForOffset, fs/reader file.ReadAt, cleanEntryName, fileInfo.Mode, entryToAttr are modelled by hand; "
              "tie = observed tree (attributes, node identity, FUSE attr), chunk tables, per-read bytes and cache-probe / underlying-read traces",
-             "hooks: estargz/verif_export_c02.go (cleanEntryName, TOC entry offsets), fs/layer/verif_export_c02.go (entryToAttr)"],
+             "hooks: estargz/verif_export_c02.go (cleanEntryName, TOC entry offsets), fs/layer/verif_export_c02.go (entryToAttr)",
+             "the decompressing reader (estargz fileReader.ReadAt: member start, InnerOffset skip) is modelled as returning the chunk's true bytes and "
+             "pre-reading the chunks of the same member (grouping read from the real TOC through the hook); its byte-exactness is checked by the oracle only",
+             "accepted, counted observation (not a failure): a tar mtime equal to the Unix epoch is omitted from the TOC and served as time.Time{} (year 1)"],
 )
